@@ -2290,3 +2290,10 @@ def _assign_model(op, checked):
 for _tr, _m, _op, _chk in (('AddAssign', 'add_assign', 'Add', True), ('SubAssign', 'sub_assign', 'Sub', True), ('MulAssign', 'mul_assign', 'Mul', True),
                            ('BitXorAssign', 'bitxor_assign', 'BitXor', False), ('BitOrAssign', 'bitor_assign', 'BitOr', False)):
     MODELS['<* as %s>::%s' % (_tr, _m)] = _assign_model(_op, _chk)
+
+
+@model('impl#f64::round')
+def _f64_round(it, key, raw, args):
+    import math
+    x = args[0]
+    return float(math.floor(abs(x) + 0.5)) * (1.0 if x >= 0 else -1.0)
